@@ -30,7 +30,7 @@ def sig(r):
 def run(tier, seed):
     q = tier == "quick"
     return _func.run(
-        "C10", tier, seed, emitters=[("MC_Net", MC, "MC_Net")], extras=lambda s: [], prepare=prepare(700 if q else 0), sig=sig,
+        "C10", tier, seed, emitters=[("MC_Net", MC, "MC_Net")], extras=lambda s: [], prepare=prepare(0), sig=sig,
         rule="TLC enumerates wrapper (PINN, HYPERPINN, SPINN) x equation type x outputs 1..3 x input transform (shift by a parameter) x "
              "output transform (scale by a parameter + first input: does not commute with the input transform) x shared-output slices x "
              "full / bare parameters x scalar / length-one time x depth x activation; SPINN: d 1..3 x r 1..3 x m 1..2 x batch 1..3, every "
